@@ -844,7 +844,7 @@ def impl(c):
         if "raw_manifest" in kwargs:
             ch["raw"] = hx(kwargs["raw_manifest"])
         if "id" in kwargs:
-            ch["id"] = hx(kwargs["id"])
+            ch["id"] = hx(kwargs["id"] or b"")          # id=None: for the model only the presence of the keyword matters
         ref = base
         if plain:
             # is the change accepted by the validators at all?  (attrs' own evolve = the constructor)
